@@ -15,8 +15,7 @@ CONSTANTS Depth, ElemLayouts
 \* <<size, align>>: size a multiple of align (or zero); padded tuples, packed structs and over-aligned
 \* zero-sized types all reduce to such a pair
 LayoutLattice ==
-    {<<sz, al>> : sz \in {0, 1, 2, 3, 4, 5, 6, 8, 12, 16, 24, 32, 48, 64, 96, 128}, al \in {1, 2, 4, 8, 16, 32, 64}} \cap
-    {p \in (0..128) \X (1..64) : p[1] % p[2] = 0}
+    {p \in {0, 1, 2, 3, 4, 5, 6, 8, 12, 16, 24, 32, 48, 64, 96, 128, 256, 4096} \X {1, 2, 4, 8, 16, 32, 64, 128, 256, 4096} : p[1] % p[2] = 0}
 
 VARIABLES n, d, node, s, a
 
